@@ -301,7 +301,19 @@ func (s *Server) referrerAdd(repo store.Repo, subject digest.Digest, desc types.
 		}()
 	}
 	// add descriptor to index and push into blob store
-	refResp.AddDesc(desc)
+	// entries of a response are identified by their digest alone: the annotations are those of the artifact,
+	// AddDesc would read a ref.name or referrer subject annotation of the artifact as a tag or response of the index
+	found := false
+	for i := range refResp.Manifests {
+		if refResp.Manifests[i].Digest == desc.Digest {
+			refResp.Manifests[i] = desc
+			found = true
+			break
+		}
+	}
+	if !found {
+		refResp.Manifests = append(refResp.Manifests, desc)
+	}
 	iRaw, err := json.Marshal(refResp)
 	if err != nil {
 		return err
@@ -370,8 +382,8 @@ func (s *Server) referrerDelete(repo store.Repo, subject digest.Digest, desc typ
 	if err != nil {
 		return err
 	}
-	// remove descriptor from response
-	refResp.RmDesc(desc)
+	// remove descriptor from response, by digest alone: with a ref.name annotation of the artifact RmDesc would only untag the entry
+	refResp.RmDesc(types.Descriptor{Digest: desc.Digest})
 	// without any remaining referrers, drop the response instead of tracking an empty list that keeps the repo from being empty
 	if len(refResp.Manifests) == 0 {
 		return repo.IndexRemove(dOld)
